@@ -6,6 +6,7 @@ cd /repo && git status --short | grep -q . && { echo "repo not clean"; exit 2; }
 git apply $patch || exit 2
 cd /verif && timeout 3000 ./check $prop $tier > /tmp/seeded/$id/check-$prop-$tier.log 2>&1; rc=$?
 git -C /repo checkout -- .
-# rebuild against the clean tree so that no mutant binary is left behind
-( cd /verif && ./check build >/dev/null 2>&1 )
+# rebuild against the clean tree so that no mutant binary is left behind (a batch caller sets SKIP_REBUILD and
+# rebuilds once at its end)
+[ -n "$SKIP_REBUILD" ] || ( cd /verif && ./check build >/dev/null 2>&1 )
 echo "$id $prop $tier exit=$rc $(grep -m1 '^violation:' /tmp/seeded/$id/check-$prop-$tier.log | cut -c1-220)"
